@@ -129,6 +129,7 @@ def evalC : Expr → CSt → ER CSt
     match σ.get x with
     | some v => .ok (.str (typeofV v)) σ
     | none => .ok (.str "undefined") σ
+  | .callId e, σ => evalC e σ
   | .objLit fields, σ =>
     .ok (.obj σ.heap.length) { σ with heap := σ.heap ++ [fields.map (fun (k, n) => (k, Val.num n))] }
 
